@@ -1,7 +1,6 @@
 import Ivg.Lemmas.GenQ
-import Ivg.Gen.Tie.DrawOps
 import Ivg.Gen.Tie.GenerateErrors
-import Ivg.Gen.Tie.Magic
+import Ivg.Gen.Tie.GeneratorFields
 import Ivg.Obligations
 /-!
 # C19 — the generator's gradient helpers
@@ -185,27 +184,62 @@ example : (0 : UInt8).toNat < 64 ∧
     ∃ calls, setGradient (α := ℚ) 0 0 0 1 [(0, RGBA.black), (1, RGBA.zero)] ⟨1, 0, 0, 0, 1, 0⟩ = .ok calls :=
   ⟨by decide, _, (GenQ.setgradient_layout 0 0 0 1 _ _ (by decide) (by decide)).1⟩
 
+/-- C19 composed with C15, at exact arithmetic — the opening clause "write a gradient that, when rendered,
+    realises the requested geometry … the stops, spread and shape given are the ones rendered": run the calls
+    of a successful `SetGradient` with at least two VALID stops (`Composed.stopsValid`: premultiplied colours,
+    offsets in `[0,1]`, strictly increasing — what the renderer insists on) on a renderer; then the gradient
+    value now in CREG[CSEL] is ACCEPTED by the renderer's `initGradient`; the paint has the given shape and
+    spread (low bits); it maps a pixel `(px, py)` to gradient space by the GIVEN matrix `t` applied to the
+    viewBox point `(unabsX px, unabsY py)` (so with `t` one of the three helper matrices, the geometry
+    theorems above apply to what is painted); and its colour at every pixel is the specification's `colorAt`
+    (`Ivg/Spec/Grad.lean`) of exactly the given stops. -/
+theorem helper_rendered [SqrtQ] (arc : Ren.ArcFn ℚ ℚ) (posInf : ℚ) (z : Ren.Renderer ℚ ℚ)
+    (hcs : z.cSel.toNat < 64) (hns : z.nSel.toNat < 64)
+    (shape spread : UInt8) (stops : List (ℚ × RGBA)) (t : Gen.Aff3 ℚ) (calls : List (Call ℚ))
+    (h : setGradient z.cSel z.nSel shape spread stops t = .ok calls)
+    (hv : Composed.stopsValid stops) (h2 : 2 ≤ stops.length) :
+    let z' := (z.run arc posInf calls).1
+    ∃ g : Grad.Gradient ℚ, z'.initGradient (z'.cReg.get6 z'.cSel) = some g ∧
+      g.shape = shape &&& 0x01 ∧ g.spread = spread &&& 0x03 ∧
+      (∀ px py : ℚ,
+        g.pix2Grad.a * px + g.pix2Grad.b * py + g.pix2Grad.c = t.a0 * z.unabsX px + t.a1 * z.unabsY py + t.a2 ∧
+        g.pix2Grad.d * px + g.pix2Grad.e * py + g.pix2Grad.f = t.a3 * z.unabsX px + t.a4 * z.unabsY py + t.a5) ∧
+      ∀ x y : Int,
+        GradQ.toCol (g.at x y) = Spec.Grad.colorAt (Spec.Grad.Spread.ofCode (spread &&& 0x03))
+          (stops.map (fun s => (s.1, GradQ.toCol (Ren.rgba64Of s.2)))) (GradQ.rawOffset g x y) :=
+  Composed.helper_rendered arc posInf z hcs hns shape spread stops t calls h hv h2
+-- non-vacuity: two valid stops
+example : Composed.stopsValid [((0 : ℚ), RGBA.black), (1, RGBA.zero)] ∧
+    2 ≤ [((0 : ℚ), RGBA.black), (1, RGBA.zero)].length := by
+  refine ⟨⟨⟨by decide, by norm_num, by norm_num⟩, by norm_num, by decide, by norm_num, by norm_num⟩, by decide⟩
+
 /-!
 ## Not proved in this file
 
-* Rounding: the geometry theorems are about the `ℚ` instance; no error bound for the float32 instance
-  (`SetCircularGradient` additionally rounds `1/sqrt` from float64 to float32).
-* The last link of "when rendered" — that the renderer, given the register state `setGradient_rendered`
-  describes, builds the gradient with these stops, shape, spread and matrix and samples it per the
-  specification — is `Ivg.Props.C15.gradient_at_spec`; the two theorems are not composed into one statement
-  here (the composition additionally needs the stops to satisfy `initGradient`'s validity checks:
-  premultiplied colours, offsets in `[0,1]`, strictly increasing).
+* Rounding: the geometry theorems and `helper_rendered` are about the `ℚ` instance; no error bound for the
+  float32 instance (`SetCircularGradient` additionally rounds `1/sqrt` from float64 to float32).
+  `setGradient_rendered` and the error/layout theorems hold for every number type.
 * `Color.RGBA()>>8` of the stop colours (conversion of a Go `color.Color` to 8-bit RGBA) happens before the
   model's `setGradient` and is not modelled.
+* With fewer than two stops, or invalid stops, the renderer rejects the gradient (`initGradient = none`) and
+  disables the path; `helper_rendered` says nothing then.
 -/
 
 end Ivg.Props.C19
 
-#obligations C19 [
-  Ivg.Props.C19.linear_gradient_geometry, Ivg.Props.C19.circular_gradient_geometry,
-  Ivg.Props.C19.circular_shape_geometry, Ivg.Props.C19.elliptical_gradient_geometry,
-  Ivg.Props.C19.too_many_stops, Ivg.Props.C19.csel_in_stop_range, Ivg.Props.C19.csel_clash_iff,
-  Ivg.Props.C19.setGradient_errors, Ivg.Props.C19.errors_before_writes,
-  Ivg.Props.C19.setgradient_layout, Ivg.Props.C19.decode_encode_gradient,
+#obligations C19 [Ivg.Props.C19.linear_gradient_geometry,
+  Ivg.Props.C19.circular_gradient_geometry,
+  Ivg.Props.C19.circular_shape_geometry,
+  Ivg.Props.C19.elliptical_gradient_geometry,
+  Ivg.Props.C19.too_many_stops,
+  Ivg.Props.C19.csel_in_stop_range,
+  Ivg.Props.C19.csel_clash_iff,
+  Ivg.Props.C19.setGradient_errors,
+  Ivg.Props.C19.errors_before_writes,
+  Ivg.Props.C19.setgradient_layout,
+  Ivg.Props.C19.decode_encode_gradient,
   Ivg.Props.C19.setGradient_rendered,
-  Ivg.Gen.Tie.drawOps_tie, Ivg.Gen.Tie.magic_tie, Ivg.Gen.Tie.generateErrors_tie]
+  Ivg.Props.C19.helper_rendered,
+  Ivg.Gen.Tie.generateErrors_tie,
+  Ivg.Gen.Tie.generator_fields_tie,
+  Ivg.Gen.Tie.gradientStop_fields_tie]
